@@ -10,6 +10,7 @@ from vlib.listsem import (
     END,
     ERR,
     N,
+    draw_clock,
     draw_count,
     draw_name_or_absent,
     draw_pred,
@@ -29,11 +30,11 @@ from vlib.values import HASHABLE_NAMES, NAMES
 PROPERTY_ID = "C05"
 LEVEL = "exploration"
 RULE = (
-    "One operator form (uniformly chosen among the 35 forms listed in FORMS: map/filter/take/skip/take_while/skip_while "
+    "One operator form (uniformly chosen among the 36 forms listed in FORMS: map/filter/take/skip/take_while/skip_while "
     "plain+indexed+inclusive, distinct, distinct_until_changed, pairwise, start_with, default_if_empty, ignore_elements, "
-    "take_last, skip_last, take_last_buffer, element_at(+_or_default), find, find_index, starmap, pluck(+pluck_attr), "
+    "take_last, skip_last, take_last_buffer, element_at(+_or_default), find, find_index, starmap (+ no mapper, + starmap_indexed), pluck(+pluck_attr), "
     "materialize, dematerialize) with generated parameters (counts 0..len+3 biased to 0/len-1/len/len+1, hash-based or "
-    "truthiness predicates incl. constant ones, optional hash key mappers / key-equality comparers, defaults incl. None "
+    "truthiness predicates incl. constant ones and a predicate returning the element itself (non-bool, judged by truthiness), optional hash key mappers / key-equality comparers, defaults incl. None "
     "and absent) over one finite timeline of 0..8 (quick) / 0..14 (thorough) elements from the full value domain (half of "
     "the cases from a 1-4 value sub-pool so duplicates and 0/0.0/False clusters are frequent) ending in completion or an "
     "error, delivered by a cold, synchronous-cold or hot (subscribed mid-stream) virtual-time source; plus an exhaustive "
@@ -43,14 +44,14 @@ RULE = (
     "recorded trace must equal it exactly (values by type-tagged canonical form, order, ticks, terminal). "
     "Non-trivial: the expected outputs are non-empty and differ from the input list, or a boundary class (b:*: count "
     "0/=len/>len, constant predicate, short-circuit hit/miss, default used, all-duplicates, notification terminal) is hit. "
-    "In about a third of the cold/sync cases the same built observable is subscribed a second time (after termination, "
+    "About one case in eight runs on HistoricalScheduler (datetime clock) instead of TestScheduler. In about a third of the cases (also in the enumeration; hot sources: overlapping or after dispose only) the same built observable is subscribed a second time (after termination, "
     "overlapping at a later tick, or right after disposing the first subscription early: the disposed probe must hold a "
     "prefix of its expected trace containing everything before the dispose tick) and the same oracle, shifted to the "
     "second subscribe tick, is applied to the second probe (signature suffix :2nd-subscription). "
     "Distinct = distinct case JSON."
 )
 ASSUMPTIONS = [
-    "user callbacks are total pure functions (hash-based predicates/keys, tuple-wrapping mappers); comparers are symmetric equivalence relations",
+    "user callbacks are total pure functions (hash-based predicates/keys, tuple-wrapping mappers); a predicate result is judged by truthiness (as the equivalent Python filter/takewhile computation does); comparers are symmetric equivalence relations (no docstring/test fixes the argument order of distinct/distinct_until_changed comparers)",
     "hot sources: events at or before the subscription tick are not part of the input (source created before the subscribing action)",
     "take(0) is expected to complete at the subscription tick; start_with values are expected at the subscription tick",
     "element_at out of range must terminate with an operator-created exception at the completion tick (type not constrained)",
@@ -90,6 +91,7 @@ FORMS = [
     "find_index",
     "starmap",
     "starmap_none",
+    "starmap_indexed",
     "pluck",
     "pluck_attr",
     "materialize",
@@ -175,6 +177,8 @@ def _build(lab, form, a, second):
         return ops.starmap(mk_map("tag"))
     if form == "starmap_none":
         return ops.starmap()
+    if form == "starmap_indexed":
+        return ops.starmap_indexed(mk_map("tag"))
     if form == "pluck":
         return ops.pluck(dval(a["key"]))
     if form == "pluck_attr":
@@ -362,8 +366,11 @@ def _oracle(form, a, E, term, S, second):
             exp = [N(T, None if form == "find" else -1), (T, "C", None)]
         else:
             exp = done
-    elif form == "starmap":
+    elif form in ("starmap", "starmap_indexed"):
+        # starmap_indexed: "input already indexed as flat tuples (*values, index)": mapper(*values, index)
         f = mk_map("tag")
+        if any(len(x) != 2 for x in xs):
+            cls.append("arity!=2")
         exp = same([f(*x) for x in xs])
     elif form == "starmap_none":
         exp = same()
@@ -413,6 +420,9 @@ def _value_strategy(draw, form):
     if form in ("starmap", "starmap_none"):
         inner = pooled(draw, NAMES)
         return st.lists(inner, min_size=0, max_size=3).map(lambda l: ["tup", l])
+    if form == "starmap_indexed":
+        inner = pooled(draw, NAMES)
+        return st.tuples(st.lists(inner, min_size=0, max_size=3), st.sampled_from(["n:0", "n:1", "n:2", "n:7"])).map(lambda t: ["tup", t[0] + [t[1]]])
     if form == "pluck":
         return None  # needs the key: built in _case
     if form == "pluck_attr":
@@ -484,6 +494,9 @@ def _cases(draw, max_len, forms=tuple(FORMS)):
     rs = draw_resub(draw, src)
     if rs is not None:
         case["resub"] = rs
+    ck = draw_clock(draw)
+    if ck is not None:
+        case["clock"] = ck
     return case
 
 
@@ -499,18 +512,26 @@ def _enum(tier):
                         a = {"n": k}
                         if form == "element_at_or_default":
                             a["default"] = ["v", "none"] if (n + k) % 2 else ["absent"]
-                        yield {"form": form, "args": a, "sub": sub, "src": {"kind": kind, "tl": tl}}
+                        base = {"form": form, "args": a, "sub": sub, "src": {"kind": kind, "tl": tl}}
+                        yield base
+                        # the same observable subscribed a second time
+                        if kind == "cold":
+                            for mode, d in (("after", 0), ("overlap", 0), ("overlap", 2), ("dispose", 1), ("dispose", 3)):
+                                yield dict(base, resub={"mode": mode, "d": d})
+                        elif kind == "hot" and sub == 0 and n >= 1:
+                            for mode, d in (("overlap", 0), ("overlap", 1), ("dispose", 2)):
+                                yield dict(base, resub={"mode": mode, "d": d})
 
 
 def checks(tier):
     ml = 8 if tier == "quick" else 14
     return [
-        Check("enum-counts", _run, cases=_enum, shards={"quick": 1, "thorough": 1}, exhaustive=True),
+        Check("enum-counts", _run, cases=_enum, shards={"quick": 2, "thorough": 2}, exhaustive=True),
         Check(
             "forms",
             _run,
             strategy=_cases(ml),
-            examples={"quick": 9000, "thorough": 16 * 50000},
+            examples={"quick": 7000, "thorough": 16 * 50000},
             shards={"quick": 8, "thorough": 16},
         ),
     ]
